@@ -155,7 +155,7 @@ Section Read.
     match rs with
     | [] => Ok (b, StillOpen)                  (* nothing more offered: same as EAGAIN *)
     | RdWouldBlock :: _ => Ok (b, StillOpen)
-    | RdFail :: _ => Ok (b, Closed)            (* handle_conn_error(): in_buf is destroyed *)
+    | RdFail :: _ => Ok (b, Closed)            (* connection failed: reported to the caller *)
     | RdBytes rc bytes full :: rs' =>
       if tcp then
         match bytes with
@@ -168,15 +168,17 @@ Section Read.
         read_conn_packets tcp b' rs'
     end.
 
-  (* process_read() for a connection that exists *)
+  (* process_read() for a connection that exists.  A connection failure reported by the socket
+     (EOF, reset, ...) is handled only after the data read before it - in this call or an
+     earlier one - has been processed (fixes/C20-process-data-before-conn-error.patch; the
+     pinned code closed the connection first and lost that data). *)
   Definition process_read (tcp : bool) (b : buf) (rs : list rd)
     : outcome (buf * list (list Z) * conn_end) :=
     do r <- read_conn_packets tcp b rs;
     let '(b1, e) := r in
-    match e with
-    | Closed => Ok (b1, [], Closed)
-    | StillOpen => read_answers b1
-    end.
+    do ra <- read_answers b1;
+    let '(b2, ms, e2) := ra in
+    Ok (b2, ms, match e with Closed => Closed | StillOpen => e2 end).
 
   (* a sequence of read events on one connection; events after the close find no connection *)
   Fixpoint run_reads (tcp : bool) (b : buf) (calls : list (list rd))
